@@ -12,7 +12,7 @@ namespace BV
 open PyP
 
 /-- the `patterns.Pattern` tuple the model's view determines -/
-def patternOf (vp normalized : Str) (re : Re) : GenF.Pattern :=
+def patternOf (vp normalized : Str) (re : Re) : GenF.PyPattern :=
   { version_pattern := vp, raw_pattern := normalized, regexp := re }
 
 /-- `compile_pattern(version_pattern, raw_pattern=None)`: the pattern is normalised (`raw_pattern` defaults to
@@ -42,7 +42,7 @@ theorem tie_compilePatterns (fuel : Nat) (version_pattern : Str) (raw_patterns :
         version_pattern raw_patterns =
       PyP.mapM (fun raw => (compileRe (normalizePattern version_pattern raw)).map
         (patternOf version_pattern (normalizePattern version_pattern raw))) raw_patterns := by
-  have hcongr : ∀ (F G : Str → Option GenF.Pattern) (l : List Str), (∀ x ∈ l, F x = G x) →
+  have hcongr : ∀ (F G : Str → Option GenF.PyPattern) (l : List Str), (∀ x ∈ l, F x = G x) →
       PyP.mapM F l = PyP.mapM G l := by
     intro F G l
     induction l with
